@@ -915,6 +915,8 @@ def replay(ctx, rp):
     errs = error_pool()
     tables = _tables(ctx)
     case = rp['case']
+    if 'kind' not in case and rp.get('kind') in ('seq', 'builtin', 'conc'):
+        case = {'kind': rp['kind'], 'case': case}      # a corpus file
     if case['kind'] == 'seq':
         r = impl_seq(case['case'], errs, tables)
         ans, jd = ctx.driver.batch([r['req'], judge_req_seq(r)])
